@@ -403,7 +403,7 @@ class Program:
         elif rng.random() < 0.08:
             T = SpecProxy(T)
         k = rng.choice(['ext', 'ioe', 'sro', 'iro', 'rebase', 'get', 'call', 'names', 'contains', 'eqhash', 'interfaces',
-                        'spb', 'sib', 'algebra', 'cpdesc', 'weakref', 'lifecycle', 'rename'])
+                        'spb', 'sib', 'algebra', 'cpdesc', 'weakref', 'lifecycle', 'rename', 'objlife'])
         if k == 'ext':
             self.emit('%s.extends(%s)' % (R(S), R(T)), lambda: bool(S.extends(T)))
             self.emit('%s.extends(%s,False)' % (R(S), R(T)), lambda: bool(S.extends(T, False)))
@@ -461,6 +461,33 @@ class Program:
             self.emit('%s.__providedBy__' % c.__name__, lambda: list(c.__providedBy__.flattened()))
         elif k == 'weakref':
             self.emit('%s.weakref()() is S' % R(S), lambda: S.weakref()() is S)
+        elif k == 'objlife':
+            # a short-lived object adapted through a registry (also as a super proxy), then dropped: it must go away
+            import weakref
+
+            def objlife():
+                cands = [c_ for c_ in self.classes if len(c_.__mro__) > 2]
+                cls_ = rng.choice(cands or self.classes)
+                tmp = cls_()
+                tmp.zname = 'tmp'
+                reg = self.regs[0]
+                I_ = self.ifaces[0]
+                v = Val(1001)
+                reg.register([implementedBy(cls_.__mro__[1]) if len(cls_.__mro__) > 2 else implementedBy(cls_)], I_, 'objlife', v)
+                out = [reg.queryAdapter(tmp, I_, 'objlife', 'D'), reg.adapter_hook(I_, tmp, 'objlife', 'D')]
+                if len(cls_.__mro__) > 2:
+                    out.append(reg.queryAdapter(super(cls_, tmp), I_, 'objlife', 'D'))
+                    out.append(reg.queryMultiAdapter((super(cls_, tmp),), I_, 'objlife', 'D'))
+                directlyProvides(tmp, I_)
+                out.append(bool(I_.providedBy(tmp)))
+                wr = weakref.ref(tmp)
+                del tmp
+                gc.collect()
+                gc.collect()
+                out.append(('dead', wr() is None))
+                reg.unregister([implementedBy(cls_.__mro__[1]) if len(cls_.__mro__) > 2 else implementedBy(cls_)], I_, 'objlife')
+                return out
+            self.emit('lifecycle of a temporary object', objlife)
         elif k == 'rename':
             # an interface renamed (or moved to another module) after it has been hashed and compared
             def ren():
@@ -519,7 +546,8 @@ class Program:
             # weak ``dependents`` dictionary of their common base - an artefact, see DESIGN 2.5; equal
             # keys are C12's subject)
             self.serial += 1
-            b = InterfaceClass(t.__name__, (Interface,), {}, __module__='%s_t%d' % (self.mod, self.serial))
+            # (the same name in another str object: names computed at run time are not interned)
+            b = InterfaceClass(''.join(list(t.__name__)), (Interface,), {}, __module__='%s_t%d' % (self.mod, self.serial))
         else:
             class Named:
                 zname = 'named'
